@@ -42,16 +42,22 @@ def check(ctx):
         hsB, frB, knB = ptgrun.make_jobs(pb, exes, OR_B, False, grid, grid, (1, 2, 4), 2, 4, 2, 150, 240, tag='startup')
     ctx.notes.append('part A: %d programs / %d variants; part B: %d programs / %d variants; refused by the interpreter: %d' % (
         len(pa), sum(len(p.variants) for p in pa), len(pb), sum(len(p.variants) for p in pb), ra + rb))
+    # order: the schedule-exhaustive legs first (task-level DFS, then the instruction-level il legs), the free-running box last,
+    # so that the first reported violation has a deterministic replay (a free-running failure depends on OS timing)
     R.run_jobs(hsA, 'A-again-scripts-hsched-task-orders')
-    R.run_jobs(frA, 'A-again-scripts-all-schedulers')
     R.run_jobs(hsB, 'B-startup-grid-hsched-task-orders')
-    R.run_jobs(frB, 'B-startup-grid-all-schedulers')
+    il_done = False
+    if not ctx.violations:
+        il.run(ctx, fut.result(), again=1, names=IL_PROGS, task_fields=2); il_done = True
+    if not ctx.violations:
+        R.run_jobs(frA, 'A-again-scripts-all-schedulers')
+        R.run_jobs(frB, 'B-startup-grid-all-schedulers')
     if knA + knB:
         R.run_jobs(knA + knB, 'recorded-findings (index-array back-end, non-range parameters)', stop_on_violation=False)
     ctx.notes += R.notes
     R.cleanup()
-    if not ctx.violations:
-        il.run(ctx, fut.result(), again=1, names=IL_PROGS)
+    if not ctx.violations and not il_done:
+        il.run(ctx, fut.result(), again=1, names=IL_PROGS, task_fields=2)
     return ctx.finish(RULE + '; ' + il.RULE, il.ASSUME + ['task bodies and runtime actions atomic at the task level', 'single process, shared memory',
                              'AGAIN returned before the body touches data'])
 
